@@ -14,7 +14,7 @@ def parseFault (s : String) : Option (Option (Nat × Fault)) :=
   match s.splitOn ":" with
   | [p, k] => do
     let p ← p.toNat?
-    let k ← if k == "rpcerr" then some Fault.rpcError else if k == "errwarnok" then some .errWarnOk
+    let k ← if k == "rpcerr" || k.startsWith "rpcerr-" then some Fault.rpcError else if k == "errwarnok" then some .errWarnOk
       else if k == "manywarnerrok" then some .errWarnOk
       else if k == "errloadsuccess" then some .errWarnOk
       else if k == "errcount" then some .errCount else if k == "malformed" then some .malformed
